@@ -20,6 +20,8 @@ NAME_POOL = ["alpha", "beta", "gamma", "delta", "node", "edge", "item", "part", 
 CXX_KEYWORD_NAMES = ["class", "delete", "new", "int", "union", "template", "operator", "register", "this", "virtual"]
 ATTR_POOL = ["a", "b", "c", "d", "e", "f", "g", "h", "k", "m", "n", "p", "q", "r", "s", "t", "u", "v", "w", "x", "y", "z"]
 ENUM_ITEMS = ["red", "green", "blue", "north", "south", "on", "off", "hi", "lo", "mid", "t", "f", "u", "x1", "a_b"]
+# (longer, shorter): the shorter item is a proper prefix of the longer one, as in IfcDocumentStatusEnum (FINALDRAFT / FINAL)
+ENUM_PREFIX_PAIRS = [("online", "on"), ("offset", "off"), ("middle", "mid"), ("north_east", "north"), ("x10", "x1"), ("t2", "t"), ("a_b_c", "a_b")]
 
 
 def type_express(t):
@@ -193,6 +195,14 @@ def gen_schema(r, name, feat):
         for _ in range(r.randint(1, 2)):
             n = fresh([x + "_e" for x in NAME_POOL])
             items = r.sample(ENUM_ITEMS, r.randint(1, 5))
+            if r.random() < 0.35:
+                # an item that is a proper prefix of an EARLIER item: a reader that stops comparing at the token's length picks the wrong one
+                lng, sht = r.choice(ENUM_PREFIX_PAIRS)
+                items = [x for x in items if x not in (lng, sht)]
+                at = r.randint(0, len(items))
+                items = items[:at] + [lng] + items[at:]
+                at2 = r.randint(at + 1, len(items))
+                items = items[:at2] + [sht] + items[at2:]
             types.append({"name": n, "def": {"k": "enum", "items": items}})
             enum_defs.append(n)
     if feat.get("agg_types", True):
